@@ -28,7 +28,7 @@ var codeStatus = map[string]int{
 
 var statusNeeds = map[int][]string{
 	404: {"NoSuchBucket", "NoSuchKey", "NoSuchUpload", "NoSuchVersion"},
-	409: {"BucketAlreadyExists", "BucketAlreadyOwnedByYou", "BucketNotEmpty", "OperationAborted"},
+	409: {"BucketAlreadyExists", "BucketAlreadyOwnedByYou", "BucketNotEmpty", "OperationAborted", "InvalidBucketState", "RestoreAlreadyInProgress"},
 	416: {"InvalidRange"},
 	501: {"NotImplemented"},
 	500: {"InternalError"},
@@ -60,7 +60,7 @@ func (r *Run) wellFormed(resp *Resp, method, class string) {
 			r.fail("wellformed", fmt.Sprintf("error code %s is sent with status %d", e.Code, resp.Status), fmt.Sprint(want), fmt.Sprint(resp.Status))
 		}
 		if need, ok := statusNeeds[resp.Status]; ok {
-			found := false
+			found := resp.Status == 404 && strings.HasPrefix(e.Code, "NoSuch") // every 404 of the S3 error list
 			for _, c := range need {
 				if c == e.Code {
 					found = true
